@@ -382,7 +382,7 @@ class Engine:
                 owner_fn = next((f_ for f_ in self.prog.functions() if self.frame_id(f_) == fid), None)
                 li = next((l_ for l_ in (owner_fn.f.get('locals') or []) if l_.get('id') == lid), None) if owner_fn is not None else None
                 if li is not None and li.get('init') is not None:
-                    g = {'t': li.get('t', ''), 'init': li['init'], 'static': True, 'name': lid, 'loc': (fid, lid)}
+                    g = {'t': li.get('t', ''), 'init': li['init'], 'static': True, 'name': lid, 'loc': (fid, lid), 'fields': li.get('fields')}
                     unit = self.db.units.get(owner_fn.unit)
                     sl_fn = owner_fn
             elif root.startswith('G:'):
